@@ -1374,9 +1374,9 @@ def _c05_condition(ctx, pr, f, g, vals, foff, j, k):
     return worst
 
 
-def c05_search(ctx, failing, corr, broken):
+def c05_search(ctx, failing, corr, broken, only=None):
     """Compose the two relations on the real code: g(f(a, b), b) must return a to a few ulps (relative
-    to the larger operand for the subtractive pairs)."""
+    to the larger operand for the subtractive pairs). `only`: a predicate selecting pairs."""
     path = os.path.join(ctx.cache, 'inverse_pairs.json')
     if not os.path.exists(path):
         return []
@@ -1388,7 +1388,7 @@ def c05_search(ctx, failing, corr, broken):
         stage1, info = [], []
         for pr in pairs:
             f, g = by_id.get(pr['f']), by_id.get(pr['g'])
-            if f is None or g is None:
+            if f is None or g is None or (only is not None and not only(pr)):
                 continue
             n = sum(pr['f_sizes'])
             for _ in range(2 if not broken else 5):
@@ -1539,6 +1539,14 @@ def c18_search(ctx, failing, corr, broken):
                 break
         if len(out) >= 5:
             break
+    if broken and len(out) < 5:
+        # rearrangements of the tabled definitions: C05's composition search, kept for the pairs one side
+        # of which is in the table
+        for v in c05_search(ctx, failing, corr, broken,
+                            only=lambda pr: pr['f'] in C18_TABLE or pr['g'] in C18_TABLE) or []:
+            v = dict(v)
+            v['kind'] = 'c18-rearrangement'
+            out.append(v)
     return out
 
 
